@@ -22,7 +22,7 @@ pub static DEF: PropertyDef = PropertyDef {
     exhaustive_note: "every function of the program x every distinct boundary of each sampled history",
     generate,
     execute,
-    must_hit: &["fault.host_eval.fired", "fault.host_eval.with_pending_choices", "fault.host_eval.with_pending_text", "fault.host_eval.text_function"],
+    must_hit: &["fault.host_eval.fired", "fault.host_eval.with_pending_choices", "fault.host_eval.with_pending_text", "fault.host_eval.text_function", "fault.host_eval.inside_forked_thread", "fault.host_eval.inside_tunnel"],
     timeout_s: 30,
     hang_class: None,
     sub_builds: &[],
@@ -33,6 +33,8 @@ fn generate(_corpus: &Corpus, tier: Tier, run: u64, rng: &mut Rng) -> Option<Cas
     let mut g = crate::inkgen::GenCfg::general();
     g.swarm(rng);
     g.functions = true;
+    g.threads = rng.chance(2, 3);
+    g.tunnels = rng.chance(2, 3);
     g.random = false;
     g.shuffles = false;
     g.externals = false;
@@ -46,7 +48,8 @@ fn generate(_corpus: &Corpus, tier: Tier, run: u64, rng: &mut Rng) -> Option<Cas
         flows: rng.chance(1, 3),
         jumps: rng.chance(1, 5),
         evals: false,
-        setvars: rng.chance(1, 3),
+        // host assignments could give a global a type the function's arithmetic does not accept
+        setvars: false,
         observers: rng.chance(1, 2),
         saves: rng.chance(1, 4),
         resets: false,
@@ -134,6 +137,25 @@ fn execute(case: &Case) -> CaseResult {
             body[..end].contains(" ftext")
         })
         .collect();
+    // call-stack shape at every boundary (threads alive, inside a tunnel), from the save text
+    let mut shapes: std::collections::BTreeMap<usize, (bool, bool)> = std::collections::BTreeMap::new();
+    if let Ok(mut probe) = Host::new(&case.program, &case.host) {
+        for p in 0..=r.ops.len() {
+            if let Ok(s) = probe.save_text() {
+                let j: serde_json::Value = serde_json::from_str(&s).unwrap_or_default();
+                let flow = j["currentFlowName"].as_str().unwrap_or("DEFAULT_FLOW").to_string();
+                let threads = j["flows"][&flow]["callstack"]["threads"].as_array().cloned().unwrap_or_default();
+                let in_tunnel = threads.iter().any(|t| t["callstack"].as_array().map(|a| a.iter().any(|e| e["type"] == 1)).unwrap_or(false));
+                shapes.insert(p, (threads.len() > 1, in_tunnel));
+            }
+            if p < r.ops.len() {
+                probe.apply(&r.ops[p]);
+                if !probe.alive() {
+                    break;
+                }
+            }
+        }
+    }
     for &p in &r.distinct {
         // an unhandled error stops the story until reset (C13): not a state in which a host evaluates functions
         let st = if p == 0 { &r.initial } else { &r.obs_after[p - 1] };
@@ -152,6 +174,14 @@ fn execute(case: &Case) -> CaseResult {
                 res.discard = Some("fuel".into());
                 return res;
             }
+            if let Some(Res::Err(k, m)) = out.results.iter().find(|r| r.is_err()) {
+                // the generator's functions are total: a failed evaluation is itself a violation
+                res.fail(Violation::new("C16", "eval-failed", "evaluate_function", &format!("{k}: {}", m.chars().take(90).collect::<String>())).with(
+                    format!("Eval({}) injected at boundary {p}", f.0),
+                    "Ok(value, text)".into(),
+                    format!("Err {k}: {m}").chars().take(400).collect(),
+                ));
+            }
             if out.fired == 2 {
                 res.stats.inc("fault.host_eval.fired");
                 let st = if p == 0 { &r.initial } else { &r.obs_after[p - 1] };
@@ -163,6 +193,12 @@ fn execute(case: &Case) -> CaseResult {
                 }
                 if prints[fi] {
                     res.stats.inc("fault.host_eval.text_function");
+                }
+                if shapes.get(&p).map(|s| s.0).unwrap_or(false) {
+                    res.stats.inc("fault.host_eval.inside_forked_thread");
+                }
+                if shapes.get(&p).map(|s| s.1).unwrap_or(false) {
+                    res.stats.inc("fault.host_eval.inside_tunnel");
                 }
                 if out.compared > 0 {
                     res.nontrivial = true;
